@@ -346,6 +346,28 @@ class FsPathI(Interface):
                'mkdir': Method()}
 
 
+class DirFileSpaceI(Interface):
+    methods = {'new_path': Method(returns=Iface(FsPathI)),
+               'new_path_as_existing_dir': Method(returns=Iface(FsPathI))}
+
+
+class ContentsI(Interface):
+    """StringSourceContents: only its file is used by the sites (what the text IS: C14)"""
+    attrs = {'as_file': Iface(FsPathI), 'tmp_file_space': Iface(DirFileSpaceI)}
+    methods = {'write_to': Method()}
+
+
+class StringSourceI(Interface):
+    """a StringSource primitive.  Ghost: `ident` (which text source it is) and, for a concatenation made by
+    string_source.impls.concat.string_source, `g_parts`: the sequence of parts whose texts it concatenates."""
+    attrs = {'ident': Int, 'g_parts': Any_}
+    methods = {'contents': Method(returns=Iface(ContentsI), pure=True), 'structure': Method(returns=Any_),
+               'new_structure_builder': Method(returns=Any_)}
+
+
+STRING_SOURCE = Iface(StringSourceI)
+
+
 class StdinCtxI(Interface):
     """a ContextManager[ProcessExecutionFile] (made by as_stdin / file_ctx_managers): gives the file to use
     as a std stream of a process; does not swallow exceptions"""
@@ -786,3 +808,60 @@ def _list_resolution(ctx):
                        bound='element sequences of length <= 3 over 9 element kinds; concat of pairs of length <= 2',
                        cases=cases, exhaustive=True, failures=failures,
                        note='independent definition: flatten of the strings each element denotes')
+
+
+# ============================================================================== stdin of the action to check
+
+from exactly_lib.type_val_prims.string_source.impls import concat as ss_concat
+from exactly_lib.impls.actors.program import execution as pgm_execution
+
+CONCAT = 'string_source.concat'
+
+
+def _concat_string_source(interp, args, kwargs):
+    """assumed contract of string_source.impls.concat.string_source(parts, mem_buff_size, file_name): a string
+    source whose text is the concatenation of the texts of `parts`, IN THAT ORDER (its contents object writes
+    `for part in parts: part.contents().write_to(output)`; what a text is: C14).  Ghost: g_parts = parts."""
+    parts = args[0] if args else kwargs['parts']
+    r = new_opaque(interp, StringSourceI, 'concat-string-source', preset={'g_parts': _seqs.frozen(parts)})
+    interp.st.emit(CONCAT, parts)
+    return r
+
+
+M.model(ss_concat.string_source, _concat_string_source)
+M.trust('string_source.impls.concat.string_source(parts, ...) denotes the concatenation of the texts of its parts in '
+        'the order of the sequence it is given (C14 proves what the text of a string source is); it starts no process')
+
+STDIN_PARTS = ListOf(STRING_SOURCE)
+
+
+def stdin_denotes(result, parts, j):
+    """`result` is the text source for the concatenation of `parts` (None: no stdin, i.e. /dev/null)"""
+    if len(parts) == 0:
+        return result is None
+    if len(parts) == 1:
+        return result is not None and same(result, parts[0])
+    return result is not None and is_same_seq(result.g_parts, parts, j)
+
+
+def stdin_parts_of(act_stdin, program_stdin):
+    """stdin of a program run as the action to check: the stdin parts of the program (accumulation order),
+    then the stdin set by the [setup] `stdin` instruction"""
+    return list(program_stdin) + ([act_stdin] if act_stdin is not None else [])
+
+
+M.contract('exactly_lib.type_val_prims.string_source.impls.concat:string_source_of_mb_empty_sequence', inline=True,
+           params=dict(parts=STDIN_PARTS, mem_buff_size=Nat), ghosts=dict(j=Int),
+           ensures={'none / the single part / the concatenation in order': lambda parts, result, j:
+           stdin_denotes(result, parts, j)}, raises_only=())
+
+M.contract('exactly_lib.impls.actors.program.execution:Executor._resolve_stdin', inline=True,
+           params=dict(act_stdin=Opt(STRING_SOURCE), program_stdin=STDIN_PARTS, mem_buff_size=Nat),
+           ghosts=dict(j=Int),
+           ensures={'program stdin parts first (in accumulation order), then the act-phase stdin; concatenated':
+                    lambda act_stdin, program_stdin, result, j:
+                    stdin_denotes(result, stdin_parts_of(act_stdin, program_stdin), j),
+                    'the stdin parts of the program are not modified': lambda program_stdin, old:
+                    len(program_stdin) == old},
+           old=lambda program_stdin: len(program_stdin),
+           raises_only=())
